@@ -468,7 +468,7 @@ int main(int argc, char** argv)
     "application-level dispatch: the mesh type is taken from the root markup's 'mesh' attribute (seed's type if absent); unknown type strings count as refused"
   };
   spec.deadline_quick_s = 500; spec.deadline_thorough_s = 3000;
-  spec.max_fail_per_worker = 2000; spec.max_report = 3000;
+  spec.max_fail_per_worker = 4000; spec.max_report = 40;
 
   // ---- seeds (smallest first)
   const char* root_env = std::getenv("VERIF_ROOT");
